@@ -179,43 +179,69 @@ func execReceiver(input string) string {
 		return nil
 	})
 	var outs []string
+	var opsF [][]string
 	for _, seg := range segs[1:] {
-		f := strings.Fields(seg)
-		if len(f) == 0 {
-			continue
+		if f := strings.Fields(seg); len(f) > 0 {
+			opsF = append(opsF, f)
 		}
+	}
+	finish := func(pre string) {
+		sort.Strings(delivered)
+		if len(delivered) == 0 {
+			outs = append(outs, pre+".")
+		} else {
+			outs = append(outs, pre+"D=["+strings.Join(delivered, ",")+"]")
+		}
+	}
+	for i := 0; i < len(opsF); i++ {
+		f := opsF[i]
 		delivered = nil
 		pre := ""
 		switch f[0] {
 		case "send", "ack":
-			msg := message.Message{MessageType: string(unhx(f[1])), Key: string(unhx(f[2])), Payload: unhx(f[3])}
-			var err error
-			if f[0] == "send" {
-				err = sender.Send(msg)
-			} else {
-				err = sender.Ack(msg)
-			}
-			if err != nil {
-				pre = "senderr "
-				break
-			}
-			select {
-			case km := <-sp.ch:
-				var w wireMirror
-				if e := json.Unmarshal(km.Value, &w); e != nil {
-					pre = "K=" + hx(km.Key) + " W=undecodable "
+			// a run of consecutive sends/acks is handed to the sender first and only then drained from the producer's
+			// queue (the real producer drains asynchronously), so records that alias shared state are exposed
+			j := i
+			var errs []bool
+			for j < len(opsF) && (opsF[j][0] == "send" || opsF[j][0] == "ack") && j-i < 32 {
+				g := opsF[j]
+				msg := message.Message{MessageType: string(unhx(g[1])), Key: string(unhx(g[2])), Payload: unhx(g[3])}
+				var err error
+				if g[0] == "send" {
+					err = sender.Send(msg)
 				} else {
-					pre = fmt.Sprintf("K=%s W=%s:%s:%s:%s ", hx(km.Key), hx([]byte(w.Message.MessageType)), hx([]byte(w.Message.Key)), hx(w.Message.Payload), b01(w.Acknowledged))
+					err = sender.Ack(msg)
 				}
-				recv.VerifProcessEvent(&kafka.Message{TopicPartition: kafka.TopicPartition{Topic: &topic}, Key: km.Key, Value: km.Value})
-			default:
-				pre = "norecord "
+				errs = append(errs, err != nil)
+				j++
+			}
+			for k := i; k < j; k++ {
+				delivered = nil
+				if errs[k-i] {
+					finish("senderr ")
+					continue
+				}
+				select {
+				case km := <-sp.ch:
+					var w wireMirror
+					if e := json.Unmarshal(km.Value, &w); e != nil {
+						pre = "K=" + hx(km.Key) + " W=undecodable "
+					} else {
+						pre = fmt.Sprintf("K=%s W=%s:%s:%s:%s ", hx(km.Key), hx([]byte(w.Message.MessageType)), hx([]byte(w.Message.Key)), hx(w.Message.Payload), b01(w.Acknowledged))
+					}
+					recv.VerifProcessEvent(&kafka.Message{TopicPartition: kafka.TopicPartition{Topic: &topic}, Key: km.Key, Value: km.Value})
+				default:
+					pre = "norecord "
+				}
+				finish(pre)
 			}
 			select {
 			case <-sp.ch:
-				pre += "extra-record "
+				outs[len(outs)-1] = "extra-record " + outs[len(outs)-1]
 			default:
 			}
+			i = j - 1
+			continue
 		case "rsend", "rack":
 			// a record written by another instance: same wire format, arbitrary 'updated' timestamp (clock skew)
 			var w wireMirror
@@ -250,12 +276,7 @@ func execReceiver(input string) string {
 		default:
 			return "bad-input"
 		}
-		sort.Strings(delivered)
-		if len(delivered) == 0 {
-			outs = append(outs, pre+".")
-		} else {
-			outs = append(outs, pre+"D=["+strings.Join(delivered, ",")+"]")
-		}
+		finish(pre)
 	}
 	return strings.Join(outs, " ; ") + " # init=" + b01(recv.Initialized())
 }
